@@ -534,6 +534,15 @@ impl CodegenContext {
             Token::Align { value, .. } => {
                 if let Some(pc) = self.try_current_target_pc() {
                     if let Some(align) = self.evaluate_expression_as_i64(value, true)? {
+                        if !(1..=0x10000).contains(&align) {
+                            return Err(Diagnostic::error()
+                                .with_message(format!(
+                                    "alignment should be between 1 and 65536, but is: {}",
+                                    align
+                                ))
+                                .with_labels(vec![value.span.to_label()])
+                                .into());
+                        }
                         let padding = (align - (pc.as_i64() % align)) as usize;
                         let mut bytes = Vec::new();
                         bytes.resize(padding, 0u8);
